@@ -119,6 +119,7 @@ static inline int vs_user_resolve(int v)
     if (vs_nondet_bool()) { vs_exc = VS_EXC_OTHER_STD; return 0; }
     int r; g_user_ret = r; return r;
 }
+static inline void vs_user_sink(int v) { if (g_user_calls < 4) g_user_calls++; g_user_arg = v; if (vs_nondet_bool()) vs_exc = VS_EXC_OTHER_STD; }
 /* CoreT<T>::value() (not lowered: reinterpret_cast of the aligned storage): Async::Error unless fulfilled, else the stored value */
 int g_value;
 static inline int *vs_core_value(struct Pistache_Async_Private_Core *c)
@@ -220,7 +221,7 @@ ASSUMED = [
 THROWING = ['vs_req_resolve', 'vs_req_reject', 'vs_core_construct', 'vs_do_resolve', 'vs_do_reject', 'vs_user_resolve', 'vs_core_value']
 ALWAYS_REPLACE = []
 OPAQUE = []
-RECORDS = ['Pistache::Async::VerifInst::Chain', 'Pistache::Async::Private::impl::Continuation<int, Pistache::Async::VerifInst::Chain, Pistache::Async::Private::Throw, Pistache::Async::Promise<int> (int)>', 'Pistache::Async::Private::impl::Continuation::Chainer<int>', 'Pistache::Async::Impl::WhenAllRange::Data', 'Pistache::Async::Impl::WhenAllRange::DataT<int, void>', 'Pistache::Async::Impl::WhenAllRange::WhenContinuation<int, void>', 'Pistache::Async::VerifInst::AddOne', 'Pistache::Async::Private::impl::Continuation<int, Pistache::Async::VerifInst::AddOne, Pistache::Async::Private::Throw, int (int)>', 'Pistache::Async::Private::Request', 'Pistache::Async::Private::Continuable<int>', 'Pistache::Async::Promise<int>', 'Pistache::Async::PromiseBase', 'Pistache::Async::Private::Throw', 'Pistache::Async::Private::Core', 'Pistache::Async::Resolver', 'Pistache::Async::Rejection', 'Pistache::Async::Impl::All::Data', 'Pistache::Async::Impl::Any::Data']
+RECORDS = ['Pistache::Async::VerifInst::Sink', 'Pistache::Async::Private::IgnoreException', 'Pistache::Async::Private::impl::Continuation<int, Pistache::Async::VerifInst::Sink, Pistache::Async::Private::IgnoreException, void (int)>', 'Pistache::Async::VerifInst::Chain', 'Pistache::Async::Private::impl::Continuation<int, Pistache::Async::VerifInst::Chain, Pistache::Async::Private::Throw, Pistache::Async::Promise<int> (int)>', 'Pistache::Async::Private::impl::Continuation::Chainer<int>', 'Pistache::Async::Impl::WhenAllRange::Data', 'Pistache::Async::Impl::WhenAllRange::DataT<int, void>', 'Pistache::Async::Impl::WhenAllRange::WhenContinuation<int, void>', 'Pistache::Async::VerifInst::AddOne', 'Pistache::Async::Private::impl::Continuation<int, Pistache::Async::VerifInst::AddOne, Pistache::Async::Private::Throw, int (int)>', 'Pistache::Async::Private::Request', 'Pistache::Async::Private::Continuable<int>', 'Pistache::Async::Promise<int>', 'Pistache::Async::PromiseBase', 'Pistache::Async::Private::Throw', 'Pistache::Async::Private::Core', 'Pistache::Async::Resolver', 'Pistache::Async::Rejection', 'Pistache::Async::Impl::All::Data', 'Pistache::Async::Impl::Any::Data']
 ENUMS = ['Pistache::Async::State']
 RECORD_ALIASES = {'Pistache::Async::Private::impl::Continuation<int, Pistache::Async::VerifInst::Chain, Pistache::Async::Private::Throw, Pistache::Async::Promise<int>(int)>': 'Pistache::Async::Private::impl::Continuation<int, Pistache::Async::VerifInst::Chain, Pistache::Async::Private::Throw, Pistache::Async::Promise<int> (int)>', 'std::__shared_ptr_access<Pistache::Async::Impl::WhenAllRange<int, std::vector<int>>::DataT<int>, __gnu_cxx::_S_atomic, false, false>::element_type': 'Pistache::Async::Impl::WhenAllRange::DataT<int, void>'}
 EXCEPTIONS = {'Pistache::Async::Private::InternalRethrow': 'VS_EXC_RETHROW', 'Pistache::Async::Error': 'VS_EXC_RUNTIME_ERROR', 'Pistache::Async::BadType': 'VS_EXC_RUNTIME_ERROR'}
@@ -234,7 +235,7 @@ DEFAULT_RULE = True
 OPAQUE_UNKNOWN = True
 OPAQUE_ANY = True
 DEVIRT = {}
-for _f in ('Chainer_int_call', 'Continuation_Chain_finishResolve', 'Continuation_Chain_finishResolve__lam0', 'Resolver_call_vector', 'Continuation_AddOne_finishResolve', 'Continuation_AddOne_doResolve', 'Continuation_AddOne_doReject', 'Promise_int_isFulfilled', 'Promise_int_isRejected', 'Continuable_int_resolve', 'Continuable_int_reject', 'Promise_int_then_AddOne', 'Resolver_call_tuple', 'Resolver_call_any', 'Rejection_call_eptr', 'Rejection_call_error', 'Resolver_call_int', 'Resolver_call_void', 'Continuable_int_reject', 'Continuable_int_resolve', 'Promise_int_then'):
+for _f in ('Continuation_Sink_doResolve', 'Continuation_Sink_doReject', 'Chainer_int_call', 'Continuation_Chain_finishResolve', 'Continuation_Chain_finishResolve__lam0', 'Resolver_call_vector', 'Continuation_AddOne_finishResolve', 'Continuation_AddOne_doResolve', 'Continuation_AddOne_doReject', 'Promise_int_isFulfilled', 'Promise_int_isRejected', 'Continuable_int_resolve', 'Continuable_int_reject', 'Promise_int_then_AddOne', 'Resolver_call_tuple', 'Resolver_call_any', 'Rejection_call_eptr', 'Rejection_call_error', 'Resolver_call_int', 'Resolver_call_void', 'Continuable_int_reject', 'Continuable_int_resolve', 'Promise_int_then'):
     DEVIRT[(_f, 'reject')] = 'vs_req_reject'
     DEVIRT[(_f, 'resolve')] = 'vs_req_resolve'
     DEVIRT[(_f, 'isVoid')] = 'vs_core_isvoid'
@@ -539,6 +540,24 @@ FUNCTIONS += [
         invariant $BEGIN <= $END && $END == core->requests.n && vs_exc == 0 && g_rej_calls == $BEGIN && g_k_rej == ((g_k < $BEGIN) ? 1 : 0) && core->state == ST_REJECTED && core->exc == g_exp_exc && core == cl->weakPtr
         decreases $END - $BEGIN"""]},
 ]
+
+# ---- a continuation that returns nothing (with a handler that swallows the rejection)
+FUNCTIONS += [
+    {'q': 'Pistache::Async::Private::IgnoreException::operator()', 'c': 'IgnoreException_call'},
+    {'q': 'Pistache::Async::Private::impl::Continuation::doResolve', 'class_targ': 'Pistache::Async::VerifInst::Sink', 'c': 'Continuation_Sink_doResolve',
+     'stubs': {'operator()|Pistache::Async::VerifInst::Sink': {'expr': 'vs_user_sink($1)', 'throws_void': True}},
+     'contract': CONT2_PRE + """
+        requires (*core)->state == ST_FULFILLED
+        assigns vs_exc, g_user_calls, g_user_arg
+        # the continuation runs exactly once per doResolve with the value the promise holds; as written in the code the derived promise
+        # of a continuation that returns nothing is NOT settled (nothing attached to it ever runs)
+        ensures g_user_calls == 1 && g_user_arg == g_value && %(ch)s->state == OLD(%(ch)s->state) && g_res_calls == 0 && g_rej_calls == 0""" % {'ch': CH}},
+    {'q': 'Pistache::Async::Private::impl::Continuation::doReject', 'class_targ': 'Pistache::Async::VerifInst::Sink', 'c': 'Continuation_Sink_doReject',
+     'contract': CONT2_PRE + """
+        assigns vs_exc
+        # a rejection runs the rejection handler, never the fulfilment continuation; a handler that swallows it ends the chain here
+        ensures vs_exc == 0 && g_user_calls == 0 && g_res_calls == 0 && g_rej_calls == 0 && %(ch)s->state == OLD(%(ch)s->state)""" % {'ch': CH}},
+]
 PROOFS = [
     {'name': 'Resolver_call_value', 'enforce': 'Resolver_call_int', 'loops': 'contracts', 'props': ['C11']},
     {'name': 'Resolver_call_void', 'enforce': 'Resolver_call_void', 'loops': 'contracts', 'props': ['C11']},
@@ -561,5 +580,7 @@ PROOFS = [
     {'name': 'Chainer_call', 'enforce': 'Chainer_int_call', 'loops': 'contracts', 'props': ['C11']},
     {'name': 'Continuation_promise_finishResolve', 'enforce': 'Continuation_Chain_finishResolve', 'props': ['C11']},
     {'name': 'Continuation_promise_reject_handler', 'enforce': 'Continuation_Chain_finishResolve__lam0', 'loops': 'contracts', 'props': ['C11']},
+    {'name': 'Continuation_void_doResolve', 'enforce': 'Continuation_Sink_doResolve', 'props': ['C11']},
+    {'name': 'Continuation_void_doReject', 'enforce': 'Continuation_Sink_doReject', 'props': ['C11']},
     {'name': 'Any_reject', 'enforce': 'Pistache_Async_Impl_Any_reject', 'replace': ['Rejection_call_eptr'], 'props': ['C11']},
 ]
